@@ -220,6 +220,26 @@ PROPS["C09"] = dict(
     trusted=SUB_TRUSTED,
 )
 
+COST_PROOFS = ["Base/Cost.v", "Mem/CostMem.v", "Sub/CostBlocks.v", "Sub/CostTwoWay.v", "Sub/CostTwoWayAll.v",
+               "Sub/CostPrefilter.v", "Sub/CostSearcher.v"]
+PROPS["C13"] = dict(
+    id="C13", coq_files=MEM_PROOF_FILES + ["Mem/IterProofs.v"] + ALL_SUB_PROOFS + COST_PROOFS + ["Props/C13.v"],
+    gen=gens.gen_c13, oracle=gens.oracle_c13, nontrivial=gens.nontrivial_c13, shrink_fields=[],
+    builds=["debug", "release"], cert="both", model_max_len=2100, escalate_gen=gens.gen_c13_escalate, escalate_build="release", escalate_sequential=True,
+    rule="step counts (loads + loop ticks recorded by the hooks) of Finder::find (prefilter Auto/None, CPUs avx2/sse2/none), FinderRev::rfind and "
+         "complete find_iter / rfind_iter traversals on adversarial families at sizes 2^8..2^14 (2^20 thorough): a^m in (a^(m-1)b)^r, a^(m-1)b and "
+         "ba^(m-1) in a^N (m up to 4096), (ab)^k c and (abc)^k in their own near-periods, Fibonacci / Thue-Morse words, needles whose two rare bytes "
+         "recur at every haystack position, a huge candidate-free prefix followed by a dense false-candidate region, plus exhaustive binary needles "
+         "<= 4 in haystacks <= 8 (10); every count is checked against the bound of Props/C13.v and, for haystacks up to 2100 bytes, the whole step "
+         "trace (digest) is compared with the model's, to which the theorem applies; if a proof or the correspondence breaks, needles of 2^16/2^17 "
+         "bytes are run on the implementation; non-trivial = haystack >= 256 bytes",
+    assumptions=SUB_ASSUME + TIER1 + [
+        "an elementary step is one recorded event: a raw load (vector chunk, word, byte, memcmp piece) or a loop tick; arithmetic between them is O(1) per event by inspection of the hooks' placement",
+        "forward search of small-period needles WITH a prefilter has only the product bound C13_find_small_period_partial (partial); the oracle still demands the linear bound there",
+        "complete iterator traversals are bounded by the oracle (sum over calls), not yet by a theorem"],
+    trusted=SUB_TRUSTED,
+)
+
 PROPS["C15"] = dict(
     id="C15", coq_files=MEM_PROOF_FILES + ["Conc/DispatchProofs.v", "Props/C15.v"],
     gen=gens.gen_c15, oracle=gens.oracle_c15, nontrivial=lambda op, kv: op != "sharedneedle", shrink_fields=[],
